@@ -802,6 +802,7 @@ func main() {
 		c.SetExtra("cut_latency_ms_upstream", map[string]interface{}{"n": len(total.upCutLatMs), "p50": pct(total.upCutLatMs, 0.5), "p95": pct(total.upCutLatMs, 0.95), "max": pct(total.upCutLatMs, 1)})
 		c.SetExtra("checks", map[string]int{"contexts_compared": total.ctxCompared, "requests_compared": total.reqsCompared, "live_probe_checks": total.liveChecks,
 			"quiet_probe_rounds": total.deadChecks, "lean_judge_on_observation": total.judgeCalls})
+		c.SetExtra("queue_stream_removal_latency", queueTimes)
 		c.SetExtra("bounds", map[string]string{"must_happen_within": bound.String(), "must_not_happen_watched_for": quiet.String() + " x up to 5 rounds"})
 		c.Note("timing residue: promptness of the cut, stream teardown and goroutine exit are Go runtime / net/http behaviour; they are exhibited at the scripted points of a request's life, not proved")
 	})
